@@ -123,11 +123,51 @@ int n(int k) { return k; }
             for s in range(4, 16):
                 tight.append(('tight_w%d_v%d_s%d' % (w, v, s), src, [], w, s, False, 200000))
     suites.differential(ctx, tight, None, label='write-int-full-stack')
+    # (5) a function that declares only scalars and calls only library routines has a static frame: its entry check is the only place
+    # where stack_overflow may arise.  Once it has passed (the marker is printed) every write must complete - a library routine
+    # that asks for more than the entry check granted would refuse a stack the compiler itself accepted
+    fit = []
+    for w in (2, 3, 4):
+        H = 1 << (8 * w - 1)
+        for v in (0, 7, -1, 12345, -12345, H - 1, -H):
+            for nb in (0, 1, 2, 3, 5):
+                decl = ' '.join('byte b%d = %d;' % (j, 65 + j) for j in range(nb))
+                use = ' '.join('write(b%d);' % j for j in range(nb))
+                src = 'empty @is_you(int x) { %s write(\'[\'); write(x); writeln(x); write(true); %s write("s"); write(\']\'); }' % (decl, use)
+                for st in range(1, 16):
+                    fit.append(('fit_w%d_%d_%d_s%d' % (w, v, nb, st), src, [str(v)], w, st, False, 100000))
+    if ctx.quick: fit = [f for i, f in enumerate(fit) if f[3] == 2 or i % 3 == 0]
+    fcases, frej = suites.compile_cases(fit)
+    fres = hidlib.run_parallel([dict(id=c['id'], asm=c['asm'], args=c['args'], fuel=c['fuel']) for c in fcases])
+    fm = {f[0]: f for f in fit}
+    late = complete = 0
+    for c in fcases:
+        r = fres.get(c['id'], {}).get('vm')
+        if r is None: continue
+        if r.output.endswith(b']'): complete += 1
+        elif r.output.startswith(b'[') and 'stack_overflow' in r.flags:
+            late += 1
+            if late <= 2:
+                f = fm[c['id']]
+                ctx.violations.append(dict(what='stack_overflow raised by a library routine after the entry check of a function with a static frame had passed: '
+                                           'write(int) refuses a stack the compiler accepted and prints nothing', kind='LATE-OVERFLOW', source=f[1], args=f[2],
+                                           config=dict(w=f[3], stack=f[4], unchecked=False), vm=suites.describe(r)))
+    ctx.stats['static_frame_fit'] = dict(runs=len(fcases), complete=complete, overflow_after_entry=late)
+    ctx.say('static frames: %d runs, %d complete, %d overflow after the entry check' % (len(fcases), complete, late))
     ctx.samples.append(dict(theorem='write_int_correct', statement='forall w>=2, v<256^w, caller states: Reach entry (outs (decimalW v)) return-address and Same outside [fp-w-k, fp-w)'))
     ctx.samples.append(dict(case='sweep0', program=sweep_program(-32768, -28673)))
 
 
 def replay(ctx, data):
+    if data.get('kind') == 'LATE-OVERFLOW':
+        import dump_ast
+        cfg = data['config']
+        c = dump_ast.case('r', data['source'], data['args'], w=cfg['w'], s=cfg['stack'])
+        r = hidlib.run_batch([c])['r']['vm']
+        print(r)
+        bad = r.output.startswith(b'[') and not r.output.endswith(b']') and 'stack_overflow' in r.flags
+        print('overflow after the entry check passed' if bad else 'no late overflow')
+        return 1 if bad else 0
     return suites.replay_case(ctx, data)
 
 
